@@ -8,6 +8,13 @@ use resolvo::{HintDependenciesAvailable, KnownDependencies, SolverCache};
 
 use crate::{slice::Slice, string::String, vector::Vector};
 
+/// Verification hook (only with `--cfg resolvo_verif`): lets a harness crate name the
+/// container types that cross the FFI boundary.
+#[cfg(resolvo_verif)]
+pub mod verif {
+    pub use crate::{slice::Slice, string::String, vector::Vector};
+}
+
 /// A unique identifier for a single solvable or candidate of a package. These ids should not be
 /// random but rather monotonic increasing. Although it is fine to have gaps, resolvo will
 /// allocate some memory based on the maximum id.
